@@ -91,7 +91,10 @@ func startDates(thorough bool, r *rand.Rand) [][]int {
 			out = append(out, []int{y, m, d})
 		}
 	}
-	for _, y := range boundaryYears {
+	for yi, y := range boundaryYears {
+		if !thorough && yi >= 15 && yi%2 == 0 {
+			continue // quick: the range boundaries, 0, +-1, +-4, +-100, +-400 and every other ordinary year
+		}
 		if thorough {
 			for m := 1; m <= 12; m++ {
 				add(y, m, 1)
@@ -107,14 +110,14 @@ func startDates(thorough bool, r *rand.Rand) [][]int {
 			add(y, 3, 30)
 			add(y, 5, 15)
 		} else {
-			for _, md := range [][2]int{{1, 1}, {1, 31}, {2, 28}, {2, 29}, {3, 1}, {3, 31}, {6, 30}, {12, 31}} {
+			for _, md := range [][2]int{{1, 1}, {1, 31}, {2, 29}, {3, 1}, {3, 31}, {12, 31}} {
 				add(y, md[0], md[1])
 			}
 		}
 		m := 1 + r.Intn(12)
 		add(y, m, 1+r.Intn(daysIn(y, m)))
 	}
-	n := 60
+	n := 40
 	if thorough {
 		n = 800
 	}
@@ -142,6 +145,9 @@ func startStamps(thorough bool, offsets []int, r *rand.Rand) [][]int {
 		}
 	}
 	for i, y := range years {
+		if !thorough && i%2 == 1 {
+			continue
+		}
 		mds := [][2]int{{1, 1}, {2, 29}, {12, 31}}
 		if thorough {
 			mds = [][2]int{{1, 1}, {1, 31}, {2, 28}, {2, 29}, {3, 31}, {6, 30}, {10, 31}, {12, 31}}
@@ -153,7 +159,7 @@ func startStamps(thorough bool, offsets []int, r *rand.Rand) [][]int {
 			add(y, md[0], md[1], c[0], c[1], offsets[r.Intn(len(offsets))])
 		}
 	}
-	n := 40
+	n := 24
 	if thorough {
 		n = 300
 	}
